@@ -538,6 +538,20 @@ package types
 //@   ensures civil:  ISSTR && dateShape(S) && time.validDate(dateY(S), dateM(S), dateD(S)) && time.dayExists(time.dayNo(dateY(S), dateM(S), dateD(S)), time.Local) ==>
 //@                     time.year(d.abs, d.loc) == dateY(S) && time.month(d.abs, d.loc) == dateM(S) && time.day(d.abs, d.loc) == dateD(S)
 
+// DateTime: the JSON form is the wall clock in the value's own location followed by the zone designation
+// (layout "2006-01-02 15:04:05 MST"); decoding it in the process zone gives back the same instant, to the second,
+// for a value held in the process zone (time.Local - what the library's own constructors produce) or in UTC.
+// The zone-designation part of time.Format / time.Parse is assumed (spec/time.spec, "zone designations").
+//@ func lemmaJSONDateTime
+//@   params d
+//@   returns (res, ok)
+//@   attr opaque = bcd.
+//@   define Y = time.year(d.abs, d.loc)
+//@   define ZERO = d.abs == 0 && d.ns == 0
+//@   ensures zero:  ZERO ==> ok && res.abs == 0 && res.ns == 0
+//@   ensures local: !ZERO && d.loc == time.Local && 0 <= Y && Y <= 9999 ==> ok && res.abs == d.abs && res.ns == 0
+//@   ensures utc:   !ZERO && d.loc == time.UTC && 0 <= Y && Y <= 9999 ==> ok && res.abs == d.abs && res.ns == 0
+
 //@ func lemmaJSONDate
 //@   params d
 //@   returns (res, ok)
